@@ -497,10 +497,14 @@ class Connection(object):
     def _handle_exception(self, exc, exc_info):
         final_handler = self.handle_exception
 
-        # Call the current PacketReactor's exception handler.
+        # Call the current PacketReactor's exception handler, unless a new
+        # connection has been initiated in the meantime: the current reactor
+        # then belongs to that connection, not to the one that has failed.
         try:
-            if self.reactor.handle_exception(exc, exc_info):
-                return
+            with self._write_lock:  # pylint: disable=not-context-manager
+                if self.new_networking_thread is None \
+                        and self.reactor.handle_exception(exc, exc_info):
+                    return
         except Exception as new_exc:
             exc, exc_info = new_exc, sys.exc_info()
 
@@ -891,9 +895,10 @@ class PlayingStatusReactor(StatusReactor):
         self.handle_proto_version(self.connection.default_proto_version)
 
     def handle_exception(self, exc, exc_info):
-        if isinstance(exc, EOFError):
+        if isinstance(exc, EOFError) and self.connection.connected:
             # An exception of this type may indicate that the server does not
-            # properly support status queries, so we treat it as non-fatal.
+            # properly support status queries, so we treat it as non-fatal
+            # (unless the connection has been ended from our side).
             self.connection.disconnect(immediate=True)
             self.handle_failure()
             return True
